@@ -164,7 +164,7 @@ def run(ctx):
                      all('holds_alternative<BuildResult::Interrupted>' in p_ or 'BuildResult::interrupted()' in p_ or
                          ('ExitInterrupted' in p_ and 'exit_status' in p_) for p_ in k.split(' || ')))
             r = f2.find_path(None, lambda x: x is e2, from_succ=f2.entry, sensitive=False,
-                             edge_ok=lambda b, i, s2, f2=f2: not any(licence(*ef) for ef in f2.edge_facts(b, i)))
+                             edge_ok=lambda b, i, s2, f2=f2: not any(licence(*ef) for ef in f2.edge_facts(b, i, all=True)))
             ok = r is None
             why = 'only for a command killed by the interrupt, or when not dry_run'
         ctx.check('C19.EF2', ok, f2.name, 'CleanupEdge:outside-interrupt', f2.where(e2), 'CleanupEdge is called %s' % why)
